@@ -38,6 +38,14 @@ RULE = (
     "exists) from 6 start states (Dataset 1-D/3-D/5-D, Dataset2d, Dataset3d, Dataset4dstem; int8..complex128; length-1 axes); plus random depth-12 "
     "histories with random arguments, start states Dataset ndim 1..5 / Dataset2d/3d/4d/4dstem, and jumps back to earlier datasets. "
     "non-trivial = >= 2 distinct op kinds executed and >= 1 shape- or dimension-changing op; distinct = (start class, ndim, executed op-kind sequence)"
+    " Widening classes on every case: the array argument comes in a random memory layout / ownership (C, Fortran, permuted, strided [::2], negative stride, "
+    "interior view, read-only), the dataset is built through one of the equivalent public routes (from_array with calibration / bare + setters / from_shape + array "
+    "setter / via copy()), float and complex data come in scale families (plain, amplitude 1e+8, 1e-8, weak contrast on a pedestal 1e3..1e6 in single and "
+    "1e9..1e12 in double precision), and every library call of 4 in 8 cases runs under process-global state a user may have set (numpy errstate raise, torch default dtype "
+    "float64 + grad disabled, numpy print options, quantem config dtype float64), restored afterwards; neutral calls (repr, str, discarded copy / index, property reads, "
+    "reductions, calibration written back) are interleaved and must change nothing"
+    "; plus 4 must-run big histories (> 2**22 elements, two > 16 MiB; uint16 / uint8 / float32 / int32 with full-range values, one Fortran-ordered) of 3-5 steps "
+    "(stepped / negative-step index, bin, crop, no-op pad, in-place pad, list index, copy, write into the result, late-rejected crop) under all monitors"
 )
 ASSUMPTIONS = [
     "index expressions contain at most one list and leave at least one axis; no booleans / None / empty results (outside the property's domain)",
@@ -47,6 +55,10 @@ ASSUMPTIONS = [
     "float64 / integer bin results are compared with the model at 1e-10 (integers exactly), float32 / complex64 at 5e-5; everything else bit for bit",
     "an invalid assignment may raise any exception type; what is judged is that it raises and that the object is unchanged",
     "axes are spelled None / int / tuple or list of non-negative ints in any order (negative spellings are exercised by C06)",
+    "expected results do not depend on memory layout, ownership (read-only input), construction route or process-global state; on /repo none of these forms raises",
+    "axes=np.int64(k) (a bare NumPy integer, not inside a tuple) raises TypeError on /repo and is not generated; tuples / lists of NumPy integers are",
+    "scale families are judged relative to max|data| like every other case (pedestal cases therefore test accumulation precision, not contrast recovery)",
+    "class 7 of the widening list (containers with mixed members) does not apply: the Dataset operations take one array",
 ]
 BUDGET = {"quick": {"soft_s": 110}, "thorough": {"soft_s": 560}}
 MIN_EVALUATIONS = {"quick": 3000, "thorough": 50000}
@@ -349,7 +361,8 @@ def plan(tier, seed):
     while r < nrand:
         out.append({"kind": "random", "depth": 12, "_must_run": True})
         r += 1
-    return targeted + out
+    big = [{"kind": "big", "variant": v, "rep": r, "_must_run": True} for r in range(1 if tier == "quick" else 4) for v in range(len(BIG_MENU))]
+    return big + targeted + out
 
 
 # ------------------------------------------------------------------------------------------------
@@ -400,6 +413,8 @@ def setup(ctx):
             return property(prop.fget, fset, prop.fdel, prop.__doc__)
 
         setattr(Dataset, attr, make())
+
+    G.install_state_wrappers(Dataset, ctx)
 
 
 # ------------------------------------------------------------------------------------------------
@@ -483,6 +498,8 @@ def _op_repr(op):
         return "set array=%s%s%s" % (op["value"].dtype, op["value"].shape, "" if op["valid"] else " (invalid)")
     if op["k"] == "poke":
         return "write(%s) into the array of #%s" % (op["form"], op.get("target", "cur"))
+    if op["k"] == "neutral":
+        return "(neutral: %s)" % op["which"]
     if op["k"] in TWIN_KINDS:
         if op.get("invalid"):
             return "%s(%s) (invalid: %s at entry %s)" % (op["k"], ", ".join("%s=%r" % kv for kv in op["kw"].items()), op["bad"]["kind"], op["bad"]["pos"])
@@ -537,8 +554,8 @@ def _compare_model(ctx, ds, m, kind, src_dtype, fields, what, bin_scale=None):
     ok_shape = ctx.check(tuple(arr.shape) == tuple(m.shape), "model_shape", lambda: "%s: shape %s, model %s" % (what(), tuple(arr.shape), tuple(m.shape)), **fields)
     if ok_shape and m.arr is not None:
         if kind == "bin":
-            if src_dtype.kind in "iu" and m.arr.dtype == object:
-                same = bool(np.all(arr.astype(object) == m.arr)) if arr.size else True
+            if src_dtype.kind in "iu" and m.arr.dtype.kind in "Oi":
+                same = (bool(np.all(arr.astype(object) == m.arr)) if m.arr.dtype == object else (arr.dtype.kind in "iu" and bool(np.array_equal(arr.astype(np.int64), m.arr)))) if arr.size else True
                 ctx.close(0.0 if same else 1.0, 0.0, "model_data", lambda: "%s: integer block sums differ from the model" % what(), **fields)
             else:
                 tol = 5e-5 if G.precision(src_dtype) == "32" else 1e-10
@@ -614,6 +631,14 @@ def _step(ctx, H, op):
     what = lambda: "history [%s] from %s" % (H.trail(), H.live[0][3])
     if k == "poke":
         return _step_poke(ctx, H, op, what)
+    if k == "neutral":
+        # repr / str / discarded copy or index / property reads / reductions / calibration written back: nothing may change
+        G.neutral_call(None, ds, op["which"])
+        ctx.count("op:neutral")
+        _check_unchanged(ctx, H, set(), {"op": "neutral", "neutral": op["which"]}, what, direct=H.cur)
+        _check_invariants(ctx, H, {"op": "neutral"}, what)
+        H.kinds.append("neutral")
+        return True
     if op.get("invalid"):
         return _step_invalid_call(ctx, H, op, what)
     fields = {"op": k}
@@ -833,11 +858,36 @@ def _transposed(idx):
 # start states and random operations
 
 
-def _build(ctx, cls_name, arr, cal):
+CONSTRUCT_FORMS = ["from_array", "from_array", "bare_then_setters", "from_shape_then_array_setter", "via_copy"]
+
+
+def _build(ctx, cls_name, arr, cal, rng=None, layout=None):
+    """the start dataset: arr's values in a random memory layout, built through one of the equivalent public construction routes"""
     C = ctx.state["cls"][cls_name]
     o, s, u = cal
-    ds = C.from_array(arr.copy(), name="c03", origin=o, sampling=s, units=u)
     model = DModel(cls_name, arr, o, s, u)
+    if rng is None:
+        return C.from_array(arr.copy(), name="c03", origin=o, sampling=s, units=u), model
+    data, lay = G.layout(rng, arr, layout)
+    form = CONSTRUCT_FORMS[int(rng.integers(len(CONSTRUCT_FORMS)))]
+    if form == "from_shape_then_array_setter" and not hasattr(C, "from_shape"):
+        form = "bare_then_setters"
+    if form == "from_array":
+        ds = C.from_array(data, name="c03", origin=o, sampling=s, units=u)
+    elif form == "via_copy":
+        ds = C.from_array(data, name="c03", origin=o, sampling=s, units=u).copy()
+    else:
+        if form == "bare_then_setters":
+            ds = C.from_array(data)
+        else:
+            ds = C.from_shape(tuple(arr.shape))
+            ds.array = data
+        ds.units = u
+        ds.origin = o
+        ds.sampling = s
+    ctx.state["last_make"] = {"layout": lay, "construct": form}
+    ctx.count("layout:" + lay)
+    ctx.count("construct:" + form)
     return ds, model
 
 
@@ -956,6 +1006,8 @@ def _rand_op(rng, ds, nlive=1):
     u0 = rng.random()
     if u0 < 0.07:
         return {"k": "poke", "form": ["iadd", "fill", "block"][int(rng.integers(3))], "target": "cur" if rng.random() < 0.5 else int(rng.integers(nlive))}
+    if 0.20 <= u0 < 0.26:
+        return {"k": "neutral", "which": G.NEUTRAL_CALLS[int(rng.integers(len(G.NEUTRAL_CALLS)))]}
     if u0 < 0.13:
         op = dict(_noop_op(NOOP_FORMS[int(rng.integers(len(NOOP_FORMS)))], shape))
         if "inplace" in op:
@@ -985,7 +1037,7 @@ def _rand_op(rng, ds, nlive=1):
             return {"k": "set_array", "value": np.zeros((2,) * (nd + 1)), "valid": False}
         new_shape = tuple(int(rng.integers(1, 5)) for _ in range(nd)) if rng.random() < 0.5 else shape
         dt = ["float64", "float32", "int16", "complex128", "uint8"][int(rng.integers(5))]
-        return {"k": "set_array", "value": G.rand_data(rng, new_shape, dt, small=True), "valid": True}
+        return {"k": "set_array", "value": G.layout(rng, G.rand_data(rng, new_shape, dt, small=True))[0], "valid": True}
     if k == "pad":
         u = rng.random()
         if u < 0.25:
@@ -1065,7 +1117,7 @@ def _run_exh(spec, idx, ctx):
     rng = ctx.rng(idx)
     cls_name, shape, dtype, calform = START_STATES[spec["start"]]
     arr = G.rand_data(rng, shape, dtype)
-    ds, model = _build(ctx, cls_name, arr, G.rand_calibration(rng, len(shape), form=calform))
+    ds, model = _build(ctx, cls_name, arr, G.rand_calibration(rng, len(shape), form=calform), rng)
     H = Hist(ctx, ds, model)
     H.live[0][3] = "%s%s %s" % (cls_name, shape, dtype)
     _check_invariants(ctx, H, {"op": "construct"}, lambda: "construction of %s" % H.live[0][3])
@@ -1086,7 +1138,7 @@ def _start_history(spec, idx, ctx):
     rng = ctx.rng(idx)
     cls_name, shape, dtype, calform = START_STATES[spec["start"]]
     arr = G.rand_data(rng, shape, dtype)
-    ds, model = _build(ctx, cls_name, arr, G.rand_calibration(rng, len(shape), form=calform))
+    ds, model = _build(ctx, cls_name, arr, G.rand_calibration(rng, len(shape), form=calform), rng)
     H = Hist(ctx, ds, model)
     H.live[0][3] = "%s%s %s" % (cls_name, shape, dtype)
     return H, cls_name, shape
@@ -1112,6 +1164,54 @@ def _run_noop_poke(spec, idx, ctx):
     _finish(ctx, H, cls_name, len(shape), {"noop": spec["noop"], "write_into": spec["target"], "form": spec["form"]}, sig=("noop_poke", cls_name, spec["noop"], spec["target"], spec["form"]), nontrivial=ok)
 
 
+
+# ------------------------------------------------------------------------------------------------
+# big arrays (> 2**22 elements, two of them > 16 MiB): short fixed histories, all monitors as usual
+
+BIG_MENU = [
+    ("Dataset3d", "uint16", 3, 1 << 22, "c", ["big_idx_steps", "big_bin23", "poke"]),
+    ("Dataset4dstem", "uint8", 4, 1 << 22, "c", ["crop_all", "pad_noop", "poke", "bad_crop_late"]),
+    ("Dataset", "float32", 3, (1 << 22) + (1 << 20), "c", ["bin_axis0_mean_ip", "set_sampling_list", "idx_list", "copy", "poke"]),
+    ("Dataset", "int32", 3, (1 << 22) + (1 << 20), "fortran", ["pad_int_ip", "idx_neg_last", "bin2", "poke"]),
+]
+
+
+def _big_op(name, sh):
+    if name == "big_idx_steps":
+        return {"k": "index", "index": (slice(None, None, 2), slice(3, None), slice(None, None, -1))}
+    if name == "big_bin23":
+        return {"k": "bin", "kw": {"bin_factors": (2, 3), "axes": (len(sh) - 2, len(sh) - 1)}, "inplace": False}
+    return ALPHABET[name](sh)
+
+
+def _run_big(spec, idx, ctx):
+    rng = ctx.rng(idx)
+    cls_name, dtype, nd, target, lay, ops = BIG_MENU[spec["variant"]]
+    h, w = int(rng.integers(200, 301)), int(rng.integers(200, 301))
+    nb = -(-int(1.1 * target) // (h * w))
+    shape = (nb, h, w) if nd == 3 else (int(rng.integers(3, 7)), -(-nb // 3), h, w)
+    if nd == 4:
+        shape = (shape[0], -(-nb // shape[0]), h, w)
+    dt = np.dtype(dtype)
+    if dt.kind in "iu":
+        info = np.iinfo(dt)
+        arr = rng.integers(int(info.min), int(info.max) + 1, size=shape, dtype=np.int64 if dt.itemsize >= 4 else np.int32).astype(dt)
+    else:
+        arr = (rng.standard_normal(size=shape, dtype=np.float32) * 40 + 5).astype(dt)
+    if arr.size <= target:
+        raise HarnessError("big case below its size class")
+    ds, model = _build(ctx, cls_name, arr, G.rand_calibration(rng, nd, form="float_array"), rng, layout=lay)
+    H = Hist(ctx, ds, model)
+    H.live[0][3] = "%s%s %s (%.1f MiB)" % (cls_name, shape, dtype, arr.nbytes / 2.0**20)
+    _check_invariants(ctx, H, {"op": "construct"}, lambda: "construction of %s" % H.live[0][3])
+    for name in ops:
+        op = _big_op(name, tuple(H.live[H.cur][0].array.shape))
+        if op is None or not _step(ctx, H, op):
+            break
+    ctx.count("big_histories")
+    _finish(ctx, H, cls_name, nd, {"big": True, "elements": int(arr.size), "ops": ops}, sig=("big", cls_name, dtype, tuple(ops)), nontrivial=True)
+
+
 def _run_random(spec, idx, ctx):
     rng = ctx.rng(idx)
     u = rng.random()
@@ -1124,7 +1224,7 @@ def _run_random(spec, idx, ctx):
     dtype = ["int8", "uint8", "int16", "int32", "int64", "float32", "float64", "float64", "complex128"][int(rng.integers(9))]
     shape = G.rand_shape(rng, nd, max_total=1500)
     arr = G.rand_data(rng, shape, dtype)
-    ds, model = _build(ctx, cls_name, arr, G.rand_calibration(rng, nd))
+    ds, model = _build(ctx, cls_name, arr, G.rand_calibration(rng, nd), rng)
     H = Hist(ctx, ds, model)
     H.live[0][3] = "%s%s %s" % (cls_name, shape, dtype)
     _check_invariants(ctx, H, {"op": "construct"}, lambda: "construction of %s" % H.live[0][3])
@@ -1136,23 +1236,43 @@ def _run_random(spec, idx, ctx):
             H.log.append("(continue on #%d)" % H.cur)
             jumps += 1
         op = _rand_op(rng, H.live[H.cur][0], len(H.live))
+        if rng.random() < 0.04:
+            nd_cur = H.live[H.cur][0].array.ndim
+            cands = [d for d, *_ in H.live if d.array.ndim == nd_cur]
+            other = cands[int(rng.integers(len(cands)))]
+            attr = ["origin", "sampling", "units"][int(rng.integers(3))]
+            op = {"k": "set", "attr": attr, "value": getattr(other, attr), "valid": True}  # the very object another dataset holds
+            ctx.count("calibration_object_of_another_dataset_assigned")
         if not _step(ctx, H, op):
             break
     _finish(ctx, H, cls_name, nd, {"jumps": jumps})
 
 
 def run_case(spec, idx, ctx):
-    with warnings.catch_warnings():
-        warnings.simplefilter("ignore")
-        with np.errstate(all="ignore"):
-            if spec["kind"] == "exh":
-                _run_exh(spec, idx, ctx)
-            elif spec["kind"] == "badargs":
-                _run_badargs(spec, idx, ctx)
-            elif spec["kind"] == "noop_poke":
-                _run_noop_poke(spec, idx, ctx)
-            else:
-                _run_random(spec, idx, ctx)
+    # process-global state a user may have set: applied around every library call of this case (outermost method wrapper), restored after it
+    ctx.state["gstate"] = "none" if spec["kind"] == "big" else G.GSTATES[idx % len(G.GSTATES)]
+    ctx.state["last_make"] = {}
+    try:
+        with warnings.catch_warnings():
+            warnings.simplefilter("ignore")
+            with np.errstate(all="ignore"):
+                if spec["kind"] == "exh":
+                    _run_exh(spec, idx, ctx)
+                elif spec["kind"] == "badargs":
+                    _run_badargs(spec, idx, ctx)
+                elif spec["kind"] == "noop_poke":
+                    _run_noop_poke(spec, idx, ctx)
+                elif spec["kind"] == "big":
+                    _run_big(spec, idx, ctx)
+                else:
+                    _run_random(spec, idx, ctx)
+    finally:
+        tags = dict(ctx.state.get("last_make") or {}, gstate=ctx.state["gstate"])
+        for rec in ctx._case["viol"]:
+            for k2, v2 in tags.items():
+                rec.setdefault(k2, v2)
+        ctx.observe(**tags)
+        ctx.state["gstate"] = "none"
 
 
 def summarize(all_cases, counters, extras):
